@@ -48,6 +48,10 @@ def run(ctx):
                         "civil fields on every record (CalendarAgrees)", "week ranges are only specified for step 1 (the unit number of a week is not defined by the property)"]
     ctx.model("MCCalendar", "MCCalendar_quick.cfg" if quick else "MCCalendar_thorough.cfg", workers=core.NCPU, heap="4g",
               label="calendar self-consistency and functional = declarative for every day of the range x 7 units")
+    if not quick:
+        ctx.model("MCCalendar", "MCCalendar_era.cfg", workers=core.NCPU, heap="4g",
+                  label="the same for EVERY day of one full 400-year cycle (2000-03-01 .. 2400-02-29, 146 097 days); the calendar is periodic in the "
+                        "cycle (EraShift: checked 12 cycles to either side), so the specification's calendar is decided for every day")
     recs = gather(ctx)
     check(ctx, recs)
     # the process's local zone is no input of the property: a slice of the same calls is made in a zone with DST
